@@ -66,6 +66,20 @@ Proof. exact site_eval_globals_needed. Qed.
 Theorem C13_site_from_globals_needed : use_after_free (run_cfg (without SiteFromGlobals) hist_from_globals).
 Proof. exact site_from_globals_needed. Qed.
 
+(* Heaps that hold ONLY references (nothing allocated: OwnedFrozen::build moving a handle, a hand-made
+   FrozenHeap::new() + add_reference + into_ref, GlobalsBuilder::new() over foreign values) are legitimate holders;
+   the "empty heap" shortcut of FrozenHeap::into_ref_impl may fire only when the reference list is empty too:
+   with the shortcut on `arena.is_empty()` alone a re-homed handle (also through two hops, also as a Globals)
+   reaches a released heap once the module and the original handle are dropped. *)
+Theorem C13_seal_refs_check_needed : use_after_free (run_cfg (without SiteSealRefsCheck) hist_carrier).
+Proof. exact seal_refs_check_needed. Qed.
+Theorem C13_seal_refs_check_needed_chain : use_after_free (run_cfg (without SiteSealRefsCheck) hist_carrier_chain).
+Proof. exact seal_refs_check_needed_chain. Qed.
+Theorem C13_seal_refs_check_needed_globals : use_after_free (run_cfg (without SiteSealRefsCheck) hist_carrier_globals).
+Proof. exact seal_refs_check_needed_globals. Qed.
+Theorem C13_carrier_add_reference_needed : use_after_free (run_cfg (without SiteAddToBuilder) hist_carrier).
+Proof. exact carrier_add_reference_needed. Qed.
+
 (* ... and the step lemma itself fails without them *)
 Theorem C13_load_step_needs_reference : exists st o, WF st /\ ~ Inv (step_cfg (without SiteLoad) st o).
 Proof. exact load_step_needs_reference. Qed.
@@ -73,6 +87,11 @@ Theorem C13_freeze_step_needs_carry : exists st o, WF st /\ ~ Inv (step_cfg (wit
 Proof. exact freeze_step_needs_carry. Qed.
 Theorem C13_get_owned_step_needs_reference : exists st o, WF st /\ ~ RootInv (step_cfg (without SiteGetOwned) st o).
 Proof. exact get_owned_step_needs_reference. Qed.
+
+Theorem C13_seal_step_needs_refs_check : exists st o, WF st /\ ~ RootInv (step_cfg (without SiteSealRefsCheck) st o).
+Proof. exact seal_step_needs_refs_check. Qed.
+Theorem C13_seal_step_weak_breaks_wf : exists st o, WF st /\ ~ WF (step_cfg (without SiteSealRefsCheck) st o).
+Proof. exact seal_step_weak_breaks_wf. Qed.
 
 (* the hypotheses are satisfiable on a non-trivial state: A defines x; B loads x, embeds it in a container and
    re-exports both; C loads both from B; an owned handle to C's container is taken and mapped into A's value;
@@ -98,3 +117,22 @@ Example C13_sites_present_safe :
   alive (run hist_owned) 0 = true /\ alive (run hist_add_to_heap) 0 = true /\ alive (run hist_builder) 0 = true /\
   alive (run hist_globals) 0 = true /\ alive (run hist_from_globals) 0 = true.
 Proof. exact sites_present_safe. Qed.
+
+(* carriers under the real mechanism: the chain handle -> carrier 2 -> carrier 1 -> module heap 0 stays alive after the
+   module, the original handle and the intermediate handle are dropped; no value edge leaves a carrier; dropping the
+   last handle releases everything; a carrier sealed without references is the shared empty ref *)
+Example C13_carriers_safe :
+  alive (run hist_carrier) 0 = true /\ alive (run hist_carrier) 1 = true /\
+  alive (run hist_carrier_chain) 0 = true /\ alive (run hist_carrier_chain) 1 = true /\ alive (run hist_carrier_chain) 2 = true /\
+  get_root (run hist_carrier_chain) 3 = Some (mkRoot KHandle [2] [(0, 0)]) /\
+  all_refs (run hist_carrier_chain) 2 = [1] /\ all_refs (run hist_carrier_chain) 1 = [0] /\
+  edges (run hist_carrier_chain) 2 = [] /\
+  alive (run (hist_carrier_chain ++ [OpDrop 3])) 0 = false /\
+  alive (run hist_carrier_globals) 0 = true /\
+  alive (run (hist_carrier_globals ++ [OpFromGlobals 2; OpDrop 2])) 0 = true.
+Proof. exact carriers_safe. Qed.
+
+Example C13_empty_carrier_is_default :
+  get_root (run [OpNewCarrier; OpSealCarrier 0 true]) 0 = Some (mkRoot KGlobals [] []) /\
+  alive (run [OpNewCarrier; OpSealCarrier 0 true]) 0 = false.
+Proof. exact empty_carrier_is_default. Qed.
